@@ -74,6 +74,7 @@ type c20Result struct {
 	Screen           []string
 	Log              []string
 	Overlaps         []string
+	ReportFate       map[string]string
 }
 
 func c20Job(id int, sc c20Scenario, b c20Budget, choices []int, typeAhead bool) harness.Job {
@@ -166,6 +167,27 @@ func c20Verdict(base *c20Result, r *c20Result) (fp, what string) {
 	return fp, what
 }
 
+// c20Fates says, for every thread parked in GetCursorPos, what became of the answer to its
+// cursor-position query: the causal part of the fingerprint of a hang.
+func c20Fates(r *c20Result, parked []string) string {
+	var out []string
+	for _, p := range parked {
+		name, rest, _ := strings.Cut(p, "@")
+		if !strings.Contains(rest, "GetCursorPos") {
+			continue
+		}
+		fate, ok := r.ReportFate[name]
+		if !ok {
+			fate = "no query"
+		}
+		out = append(out, c20Role(name)+"'s report "+fate)
+	}
+	if len(out) == 0 {
+		return ""
+	}
+	return " [" + strings.Join(out, "; ") + "]"
+}
+
 func c20Verdict0(base *c20Result, r *c20Result) (fp, what string) {
 	switch r.Outcome {
 	case "harness-failure":
@@ -173,14 +195,14 @@ func c20Verdict0(base *c20Result, r *c20Result) (fp, what string) {
 	case "panic":
 		return "panic/" + sanitize(panicKind(r.Panic)), "panic: " + r.Panic
 	case "deadlock":
-		return "deadlock{" + normDeadlock(r.Deadlock) + "}", "deadlock: nothing can run before Readline has returned: " + r.Deadlock
+		return "deadlock{" + normDeadlock(r.Deadlock) + "}" + c20Fates(r, strings.Split(r.Deadlock, ", ")), "deadlock: nothing can run before Readline has returned: " + r.Deadlock
 	}
 	if len(r.Blocked) > 0 {
 		var roles []string
 		for _, b := range r.Blocked {
 			roles = append(roles, normDeadlock(b))
 		}
-		return "thread-left-blocked-after-return{" + strings.Join(roles, ",") + "}", fmt.Sprintf("Readline returned %q but these threads are still parked for ever: %v", r.Line, r.Blocked)
+		return "thread-left-blocked-after-return{" + strings.Join(roles, ",") + "}" + c20Fates(r, r.Blocked), fmt.Sprintf("Readline returned %q but these threads are still parked for ever: %v", r.Line, r.Blocked)
 	}
 	if base != nil && (r.Line != base.Line || r.Err != base.Err) {
 		return "result-differs-from-undisturbed-run", fmt.Sprintf("Readline returned (%q, %q), the same keys without disturbance give (%q, %q)", r.Line, r.Err, base.Line, base.Err)
